@@ -1,0 +1,121 @@
+//go:build verif
+
+// Package verifhook provides named instrumentation points for the external
+// verification harness (build tag "verif").
+//
+// A point counts its hits, optionally journals (name, args) to the file named
+// by $VERIF_HOOK_JOURNAL with one write(2) per hit, calls a handler registered
+// in-process, and executes a plan from $VERIF_POINTS, a comma separated list of
+//
+//	name=crash@N     exit(87) without running deferred work on the N-th hit (1-based)
+//	name=sleep(ms)   sleep on every hit
+//	name=yield       runtime.Gosched on every hit
+package verifhook
+
+import (
+	"fmt"
+	"os"
+	"runtime"
+	"strconv"
+	"strings"
+	"sync"
+	"time"
+)
+
+const Enabled = true
+
+type action struct {
+	crashAt int64
+	sleep   time.Duration
+	yield   bool
+}
+
+var (
+	mu       sync.Mutex
+	hits     = map[string]int64{}
+	plan     map[string]action
+	journal  *os.File
+	handlers = map[string]func(kv ...interface{}){}
+	once     sync.Once
+)
+
+func setup() {
+	plan = map[string]action{}
+	for _, item := range strings.Split(os.Getenv("VERIF_POINTS"), ",") {
+		item = strings.TrimSpace(item)
+		eq := strings.IndexByte(item, '=')
+		if eq < 0 {
+			continue
+		}
+		name, spec := item[:eq], item[eq+1:]
+		a := plan[name]
+		switch {
+		case strings.HasPrefix(spec, "crash@"):
+			a.crashAt, _ = strconv.ParseInt(spec[len("crash@"):], 10, 64)
+		case strings.HasPrefix(spec, "sleep(") && strings.HasSuffix(spec, ")"):
+			ms, _ := strconv.ParseFloat(spec[len("sleep("):len(spec)-1], 64)
+			a.sleep = time.Duration(ms * float64(time.Millisecond))
+		case spec == "yield":
+			a.yield = true
+		}
+		plan[name] = a
+	}
+	if p := os.Getenv("VERIF_HOOK_JOURNAL"); p != "" {
+		journal, _ = os.OpenFile(p, os.O_CREATE|os.O_WRONLY|os.O_APPEND, 0o644)
+	}
+}
+
+// Handle registers an in-process handler for a point (nil removes it).
+// The handler runs on the goroutine that hit the point.
+func Handle(name string, fn func(kv ...interface{})) {
+	mu.Lock()
+	defer mu.Unlock()
+	if fn == nil {
+		delete(handlers, name)
+	} else {
+		handlers[name] = fn
+	}
+}
+
+// Hits returns how often a point was reached.
+func Hits(name string) int64 {
+	mu.Lock()
+	defer mu.Unlock()
+	return hits[name]
+}
+
+// Point marks a named instrumentation point.
+func Point(name string, kv ...interface{}) {
+	once.Do(setup)
+	mu.Lock()
+	hits[name]++
+	n := hits[name]
+	a, planned := plan[name]
+	h := handlers[name]
+	if journal != nil {
+		var sb strings.Builder
+		sb.WriteString(name)
+		for _, v := range kv {
+			sb.WriteByte(' ')
+			fmt.Fprint(&sb, v)
+		}
+		sb.WriteByte('\n')
+		_, _ = journal.WriteString(sb.String())
+	}
+	mu.Unlock()
+	if h != nil {
+		h(kv...)
+	}
+	if !planned {
+		return
+	}
+	if a.crashAt > 0 && n == a.crashAt {
+		os.Exit(87)
+	}
+	if a.sleep > 0 {
+		time.Sleep(a.sleep)
+	}
+	if a.yield {
+		runtime.Gosched()
+	}
+}
